@@ -582,6 +582,78 @@ func c05StreamableClose() vs.Verdict {
 	return f.verdict(strings.Join(outs, " "))
 }
 
+// c05RootsBroadcastVsClose: one Client with three sessions.  While Client.AddRoots tells every session
+// about the change (one roots/list_changed each, written session by session), the second session is
+// closed - by the client or by its server.  Nothing panics, AddRoots and the Close return, the two
+// surviving sessions are each told exactly once, the closed one is gone from the client's list.
+func c05RootsBroadcastVsClose(closer string) vs.Verdict {
+	f := &e1Fail{prefix: "c05b roots-broadcast-vs-close " + closer}
+	ctx := context.Background()
+	vs.Quiet(true)
+	c := NewClient(&Implementation{Name: "cli", Version: "1"}, &ClientOptions{Logger: quietLogger})
+	told := make([]int, 3)
+	var css []*ClientSession
+	var sss []*ServerSession
+	for i := 0; i < 3; i++ {
+		s := NewServer(&Implementation{Name: fmt.Sprint("srv", i), Version: "1"}, &ServerOptions{Logger: quietLogger,
+			RootsListChangedHandler: func(context.Context, *RootsListChangedRequest) { told[i]++ }})
+		ct, st := NewInMemoryTransports()
+		ss, err := s.Connect(ctx, st, nil)
+		if err != nil {
+			return vs.Verdict{Bad: "server connect: " + err.Error(), Sig: "c05b connect-failed"}
+		}
+		cs, err := c.Connect(ctx, ct, &ClientSessionOptions{ProtocolVersion: "2025-06-18"})
+		if err != nil {
+			return vs.Verdict{Bad: "client connect: " + err.Error(), Sig: "c05b connect-failed"}
+		}
+		css, sss = append(css, cs), append(sss, ss)
+	}
+	vs.WaitIdle()
+	vs.Quiet(false)
+	done := make(chan string, 4)
+	vs.Go(func() {
+		c.AddRoots(&Root{URI: "file:///new", Name: "new"})
+		done <- "added"
+	})
+	vs.Go(func() {
+		if closer == "client" {
+			css[1].Close()
+		} else {
+			sss[1].Close()
+			css[1].Wait()
+		}
+		done <- "closed"
+	})
+	<-done
+	<-done
+	vs.Quiet(true)
+	vs.WaitIdle()
+	for _, i := range []int{0, 2} {
+		if err := css[i].Ping(ctx, nil); err != nil {
+			f.failf("surviving-session-unusable", "session %d was not closed, yet a ping on it fails: %v", i, err)
+		}
+	}
+	vs.WaitIdle()
+	for _, i := range []int{0, 2} {
+		if told[i] != 1 {
+			f.failf("surviving-session-told-"+fmt.Sprint(told[i])+"-times", "session %d stayed open throughout the broadcast and was sent %d roots/list_changed notifications, want 1 (told: %v)", i, told[i], told)
+		}
+	}
+	c.mu.Lock()
+	n := len(c.sessions)
+	c.mu.Unlock()
+	if n != 2 {
+		f.failf("client-session-list", "after the close the client lists %d sessions, want 2", n)
+	}
+	for i := range css {
+		css[i].Close()
+		sss[i].Wait()
+	}
+	vs.WaitIdle()
+	vs.Quiet(false)
+	return f.verdict(fmt.Sprintf("told=%v", told))
+}
+
 func TestVerifC05(t *testing.T) {
 	env := verifx.LoadEnv("C05")
 	b := env.Pick(1, 2)
@@ -590,6 +662,8 @@ func TestVerifC05(t *testing.T) {
 		vs.E1(t, "b/sessions-client-writes-fail", b, vs.Options{}, func() vs.Verdict { return c05Sessions("client") }),
 		vs.E1(t, "b/sessions-server-writes-fail", b, vs.Options{}, func() vs.Verdict { return c05Sessions("server") }),
 		vs.E1(t, "b/nested-request-in-flight", env.Pick(1, 2), vs.Options{}, func() vs.Verdict { return c05Nested() }),
+		vs.E1(t, "b/roots-broadcast-vs-close/closed-by-client", env.Pick(1, 2), vs.Options{}, func() vs.Verdict { return c05RootsBroadcastVsClose("client") }),
+		vs.E1(t, "b/roots-broadcast-vs-close/closed-by-server", env.Pick(1, 2), vs.Options{}, func() vs.Verdict { return c05RootsBroadcastVsClose("server") }),
 		vs.E1(t, "b/subscribe-vs-close/2026-07-28", env.Pick(2, 3), vs.Options{}, func() vs.Verdict { return c05SubscribeVsClose() }),
 		vs.E1(t, "b/streamable-client-close-vs-call", env.Pick(1, 2), vs.Options{}, func() vs.Verdict { return c05StreamableClient() }),
 		vs.E1(t, "b/streamable-close-vs-posts", env.Pick(1, 2), vs.Options{}, func() vs.Verdict { return c05StreamableClose() }),
